@@ -97,6 +97,14 @@ def run(rep, tier):
     for c in range(256):
         rep.add('R8', 'byte=0x%02X' % c, c not in probs, pos(rt.node) + ' xcmp::Lexer::readToken', probs.get(c, 'END_OF_FILE or a diagnostic is reached'),
                 nontrivial=(chr(c) in '|"\'#:<>~' or chr(c).isalnum()))
+    if tier == 'thorough':
+        import itertools
+        reps = [0x20, 0x0A, 0x23, 0x7C, 0x22, 0x27, 0x5C, 0x61, 0x30, 0x2D, 0x3A, 0x3C, 0x7E, 0x3D, 0x80, 0xFF]
+        pairs = list(itertools.product(reps, repeat=2)) + [(a, b, c) for a in (0x22, 0x27, 0x23, 0x7C) for b in (0x5C, 0x61) for c in (0x5C, 0x22, 0x27, 0x0A)]
+        probs = dict(robust.lexer_terminates(idx, 'xcmp', pairs))
+        for pr in pairs:
+            rep.add('R8', 'bytes=' + ' '.join('%02X' % b for b in pr), pr not in probs, pos(rt.node) + ' xcmp::Lexer::readToken',
+                    probs.get(pr, 'END_OF_FILE or a diagnostic is reached'), nontrivial=True)
 
 
 def _under_found_test(f, ret):
